@@ -89,7 +89,7 @@ def run(ctx):
                    "this condition is always %s here: a dominating guard (an enclosing branch or an earlier `if ...: continue / return`) "
                    "already decides it, so the %s branch is dead code - the constraint / bound variant it was written for is never "
                    "generated (or always is)" % (val, "true" if not val else "else"), node=n)
-    ctx.require(n_tests >= 150, "fewer than 150 branch conditions in the package")
+    ctx.require(n_tests >= 150, "fewer than 150 branch conditions in the package", rules=['C07.n'])
 
     # ---- decided by linear arithmetic over the guards that dominate the test (enclosing ifs, range() loops, earlier conjuncts)
     import itertools
@@ -239,7 +239,7 @@ def run(ctx):
                        "(or unconditional) - the case it was written for (e.g. a start ramp still in progress at the beginning of the "
                        "horizon) is never recognised" % ("; ".join(sorted({("%s %s 0" % (lf.show(G), ">" if st_ else ">=")) for G, st_ in here}))[:200],
                                                          val, lf.show(F), "> 0" if pos else "< 0"), node=c)
-    ctx.require(n_lin >= 20, "fewer than 20 guarded comparisons analysed by the linear pass")
+    ctx.require(n_lin >= 20, "fewer than 20 guarded comparisons analysed by the linear pass", rules=['C07.n'])
 
     # ================================================================= C02.f guard agreement
     def quant_atoms(test):
@@ -275,7 +275,7 @@ def run(ctx):
                    "the single-variable branch is entered under %s but applies the spread / cost sign under %s: in the gap (entered, but no "
                    "inner predicate true) the spread / sign is silently dropped - e.g. a capacity profile that is <= 0 in some steps only"
                    % (sorted(sign_outer - inner) or sorted(sign_outer), sorted(inner - sign_outer) or sorted(inner)), node=st)
-    ctx.require(n >= 2, "the one-variable / two-variable branch selection of SimpleContract and Transport was not found")
+    ctx.require(n >= 2, "the one-variable / two-variable branch selection of SimpleContract and Transport was not found", rules=['C02.f'])
 
     # ================================================================= C19.f sibling sub-grid constructions
     tg = p.cls("Timegrid")
@@ -304,7 +304,7 @@ def run(ctx):
                    "the two arms build the sub-grid with different arguments %s although the branch is only about %s: one arm ignores "
                    "the (defaulted) argument of the call, e.g. the asset's own start" % (
                        {k: (ma.get(k), mb.get(k)) for k in sorted(diff - allowed)}, sorted(about)), node=st)
-    ctx.require(n >= 1, "sibling Timegrid constructions (set_restricted_grid) not found")
+    ctx.require(n >= 1, "sibling Timegrid constructions (set_restricted_grid) not found", rules=['C19.f'])
 
     # ================================================================= C07.o alias written through the other name
     n_alias = 0
@@ -375,7 +375,7 @@ def run(ctx):
                     if isinstance(k, ast.Constant) and k.value is False:
                         keep = "False"
                     dd.append((fn, n, keep))
-    ctx.require(len(dd) >= 4, "fewer than 4 de-duplications by index found")
+    ctx.require(len(dd) >= 4, "fewer than 4 de-duplications by index found", rules=['C07.p', 'C03.g'])
     tally = {}
     for _, _, k in dd:
         tally[k] = tally.get(k, 0) + 1
@@ -455,7 +455,7 @@ def run(ctx):
                    "%s defaults to None and takes numbers (%s) but is tested by truthiness (`%s`): the value 0 is treated as 'not "
                    "given' - e.g. a default of 0 for steps outside all intervals is never filled in and the vector keeps NaN there"
                    % (name, why, au.short(bad[0].test, 50) if bad else ""), node=(bad[0] if bad else fn.node), ok_detail=why)
-    ctx.require(n_t >= 8, "fewer than 8 optional numeric parameters found")
+    ctx.require(n_t >= 8, "fewer than 8 optional numeric parameters found", rules=['C07.t'])
 
     # ================================================================= C04.g one normalisation per option string
     n_g = 0
@@ -497,11 +497,11 @@ def run(ctx):
                        ("%s.%s()" % (name, [nm for nm, c in ss if c is dev[0]][0]) if [nm for nm, c in ss if c is dev[0]][0] else "the raw string") if dev else "",
                        au.short(dev[0], 50) if dev else ""), node=(dev[0] if dev else ss[0][1]),
                    ok_detail="%d comparisons, all through .%s()" % (len(ss), major))
-    ctx.require(n_g >= 1, "no option string with a normalised comparison found (optimize target)")
+    ctx.require(n_g >= 1, "no option string with a normalised comparison found (optimize target)", rules=['C04.g'])
 
     # ================================================================= C11.h naive test of the writer
     ser = p.modules.get("serialization")
-    ctx.require(ser is not None, "serialization module vanished")
+    ctx.require(ser is not None, "serialization module vanished", rules=['C11.h'])
     found = False
     for fn in ser.functions.values():
         for st in au.walk_stmts(fn.body):
